@@ -546,6 +546,20 @@ def f_detfinish(broken=1, slow=4, lead=0, cfg="c"):
             "sub/plan.py": script(sub), "sub/work.py": script(work)}
 
 
+def f_planuse(use=1, chain=2, src="x", psrc="c"):
+    """A chain of optional steps (A: src -> a.txt, M: a.txt -> m.txt) whose only consumer is a
+    planning step: ./sub.py amends the end of the chain while use=1. Edits of use only touch
+    sub.py, so the plan that declares the chain is skipped when the consumer goes away."""
+    last = "m.txt" if chain == 2 else "a.txt"
+    root = [["static", "src.txt", "sub.py", "cfg.txt"],
+            tr("A", ["src.txt"], ["a.txt"], need="OPTIONAL")]
+    if chain == 2:
+        root.append(tr("M", ["a.txt"], ["m.txt"], need="OPTIONAL"))
+    root.append(["plan", "./sub.py", {"inp": ["cfg.txt"]}])
+    sub = [["amend", {"inp": [last]}], ["read", last]] if use else [["read", "cfg.txt"]]
+    return {"plan.py": script(root), "sub.py": script(sub), "src.txt": src + "\n", "cfg.txt": psrc + "\n"}
+
+
 def f_latestatic(gap=1, cfg="c"):
     """The top plan consumes cfg.txt (amended), starts a sub-plan and only afterwards declares the
     static file late.txt, which a step of the sub-plan (./work.py) amends. An edit of cfg.txt
@@ -588,6 +602,7 @@ DOMAINS = {
     "f_dynout": {"target": ("dyn1", "dyn2"), "consumer": ("none", "dyn1", "dyn2"), "sub": (0, 1)},
     "f_hold": {"nesting": (2, 1), "v": (1, 2)},
     "f_detfinish": {"broken": (1, 0), "lead": (0, 2)},
+    "f_planuse": {"use": (1, 0), "chain": (2, 1), "src": ("x", "y"), "psrc": ("c", "d")},
 }
 ENV_DOMAIN = {"f_env": {"VERIF_X": (None, "1", "2", "")}}
 
